@@ -15,11 +15,11 @@ Quiescent == ready = <<>>
 \* one of these deviation clauses is excused for THAT property only.
 DevOf(p) == CASE p = "C01" -> {}
               [] p = "C02" -> {"D7", "D9", "D10"}
-              [] p = "C03" -> {"D3", "D4", "D7", "D10", "D11"}
-              [] p = "C04" -> {"D3", "D8", "D9", "D10"}
-              [] p = "C05" -> {"D4", "D10"}
-              [] p = "C06" -> {"D5", "D12"}
-              [] p = "C10" -> {"D12"}
+              [] p = "C03" -> {"D3", "D7", "D10", "D11"}
+              [] p = "C04" -> {"D3", "D9", "D10"}
+              [] p = "C05" -> {"D10"}
+              [] p = "C06" -> {}
+              [] p = "C10" -> {}
               [] p = "C13" -> {}
 CleanFor(p) == S.dev \cap DevOf(p) = {}
 Terminated(s) == s.st \in Terminal
@@ -59,7 +59,7 @@ C03_NoHalfTransition == ~S.transitioning /\ ~S.failing /\ (Quiescent => ~S.stepp
 C04_KillNoRaise == CleanFor("C04") => "killRaised" \notin S.bad
 \* the step that was in flight may have failed: then EXCEPTED with that step's exception
 \* ... or the environment failed the process itself (fail(), a raising call_soon callback) before the kill took effect
-StepFailed(s) == s.st = "EXCEPTED" /\ (s.cur.val \in {"F", "CB"} \/ (\E i \in 1..Len(s.awt) : s.awt[i].st = "fail" /\ s.awt[i].val = s.cur.val) \/ \E i \in 1..Len(Prog(s)) : Prog(s)[i].cmd = "raise" /\ Prog(s)[i].val = s.cur.val)
+StepFailed(s) == s.st = "EXCEPTED" /\ (s.cur.val \in {"F", "CB"} \/ (\E i \in 1..Len(s.awt) : s.awt[i].st \in {"fail", "killed"} /\ s.awt[i].val = s.cur.val) \/ \E i \in 1..Len(Prog(s)) : Prog(s)[i].cmd = "raise" /\ Prog(s)[i].val = s.cur.val)
 C04_KillNotLost == (CleanFor("C04") /\ Quiescent /\ S.mon.killAcc) => (S.st = "KILLED" \/ StepFailed(S))
 KillCalls(s) == SelectSeq(s.log, LAMBDA e : e[1] = "call" /\ e[2] = "kill")
 ActOf(ret) == CHOOSE a \in 1..Len(S.acts) : ret = "act:" \o ToString(a)
@@ -158,7 +158,7 @@ C16_Reply ==
        (m.st \notin {"sched", "await", "woken"}) =>
           \/ m.st = "failed:RuntimeError"
           \/ (m.act = 0 /\ \E j \in 1..Len(RpcCalls(S)) : RpcCalls(S)[j][2] = m.intent /\ m.st = "done:" \o RpcCalls(S)[j][4])
-          \/ (m.act # 0 /\ m.st = (LET st == S.acts[m.act].status IN IF st = "done" THEN "done:True" ELSE st))
+          \/ (m.act # 0 /\ m.st = ReplyOf(S.acts[m.act].status))
 
 (* ---- C13: the returned command alone decides the next step and its arguments ---------------- *)
 C13_Continuation == CleanFor("C13") => "wrongContinuation" \notin S.bad
